@@ -75,10 +75,25 @@ def execute(case):
     val, e3 = guarded(has_valid_suffix, x)
     vt, e4 = guarded(has_valid_tld, x)
     it, e5 = guarded(is_valid_tld, case["last"])
+    # the last label in every spelling: as is, upper case, punycode, upper-case punycode, mixed case, with a leading dot;
+    # and has_valid_tld of a host ending with each
+    last = case["last"]
+    try:
+        puny = last.encode("idna").decode("ascii")
+    except UnicodeError:
+        puny = last
+    mixed = "".join(c.upper() if i % 2 == 0 else c for i, c in enumerate(puny))
+    tforms = []
+    for sp_ in (last, last.upper(), puny, puny.upper(), mixed, "." + last, "." + puny.upper()):
+        r1, e6 = guarded(is_valid_tld, sp_)
+        r2, e7 = guarded(has_valid_tld, "www.example." + sp_.lstrip("."))
+        e5 = e5 or e6 or e7
+        tforms.append(bool(r1))
+        tforms.append(bool(r2))
     arm = lambda s: [armour(p) for p in s.split(".")] if s else []
     return {"id": case["id"], "kind": "host", "h": case["h"], "form": case["form"], "special": False,
             "hassplit": sp is not None, "split": [arm(sp[0]), arm(sp[1])] if sp else [[], []],
-            "domain": arm(dom) if dom else [], "valid": bool(val), "valid_tld": bool(vt), "is_valid_tld_last": bool(it),
+            "domain": arm(dom) if dom else [], "valid": bool(val), "valid_tld": bool(vt), "is_valid_tld_last": bool(it), "tforms": tforms,
             "exc": e1 or e2 or e3 or e4 or e5 or ""}
 
 
